@@ -232,6 +232,19 @@ theorem C10_group_key_rsplit_counterexample :
     subKey "build".toList "build:linux:x86".toList = "linux:x86".toList ∧
     subKey "build".toList "build:mac:x86".toList = "mac:x86".toList := by decide
 
+/-- an execution whose values can not be saved (`completeOk actionsOk false = false`) leaves no record and no value:
+    the next status check of the task has nothing recorded (it runs again), and a keyed getargs on it is an error,
+    never the value the actions computed -/
+theorem C10_unsaveable_execution_leaves_nothing (h : List IOp) (t : Name) (actionsOk : Bool)
+    (ws : List (Path × Nat × Nat)) (res : Option Res) (hal : (runI h).crashed = false) :
+    (runI (h ++ [.complete t (completeOk actionsOk false) ws res])).shadow t = none ∧
+    ∀ (ops : List VOp) (k : Key), getArg (vrun (ops ++ [.remove t])) none t (some k) = .error .noRecord := by
+  constructor
+  · have hal' : (List.foldl istep St.init h).crashed = false := hal
+    simp [runI, List.foldl_append, istep, completeOk, hal', finish, erase]
+  · intro ops k
+    exact C10_getargs_after_remove ops t k
+
 /-! ## calc_dep results in the same run -/
 
 /-- **C10, calc_dep.**  `update_deps` with the file_dep delivered by a calc_dep task is a redefinition of the
@@ -267,6 +280,26 @@ theorem C10_calc_same_run (h : List IOp) (hf : IFaithful h = true) (t : Name) (d
     rcases hn with hn | hn
     · exact changed_of_needsSeen hinv t p hF hst hp hn
     · exact changed_of_no_state hinv t p hF hst hp hn
+
+/-- a calc_dep result may also carry `uptodate` items (`Task.update_deps` → `_extend_uptodate`): a delivered `False`
+    makes the consumer execute in the same run — on the false-uptodate path of F-C10, i.e. with `changed == []` -/
+theorem C10_calc_delivered_uptodate_false (h : List IOp) (t : Name) (delivered : List Path) (utd : List Utd)
+    (hal : (runI h).crashed = false) (hu : Utd.const false ∈ utd) :
+    let σ := runI (h ++ [.base (.redefine t (withCalcU ((runI h).defs t) delivered utd))])
+    σ.status true t = .run ∧ (kwargsOf σ t).changed = [] := by
+  intro σ
+  have hdef : σ.defs t = withCalcU ((runI h).defs t) delivered utd := by
+    simp only [σ, runI, List.foldl_append, List.foldl_cons, List.foldl_nil, istep, step]
+    have hal' : (List.foldl istep St.init h).crashed = false := hal
+    simp [hal']
+  have hF : ∀ vals resOf, utdFalse vals resOf (σ.defs t).uptodate = true := by
+    intro vals resOf
+    rw [hdef]
+    simp only [utdFalse, withCalcU, List.any_append, List.any_eq_true, Bool.or_eq_true]
+    exact Or.inr ⟨_, hu, by simp [evalUtd]⟩
+  constructor
+  · simp [St.status, statusOf, earlyRun, hF]
+  · simp [kwargsOf, depChangedOf, hF]
 
 /-! ## non-vacuity -/
 
